@@ -99,6 +99,7 @@ type Exec struct {
 	vfs        *VFS
 	accessLog  []accessRec
 	trackLocks bool
+	prop       string // the property being checked ("" = none): see checkOne
 	muHeld     int
 	raftCells  int
 
